@@ -244,21 +244,31 @@ func nameOps() []Op {
 // positive and the negated form of every class notation, a range and its complement, the same
 // category under two spellings - as bare patterns and inside token definitions: whatever is
 // memoised per class must not confuse the two.
-func polarityOps() []Op {
-	pairs := [][2]string{
-		{`\d+x`, `\D+x`}, {`\s`, `\S`}, {`\w+`, `\W+`},
-		{`\p{Lu}+`, `\P{Lu}+`}, {`\p{Greek}`, `\P{Greek}`}, {`\p{L}`, `\P{L}`}, {`\p{Lu}`, `\p{Ll}`},
-		{`[[:alpha:]]+`, `[^[:alpha:]]+`}, {`[[:digit:]]`, `[[:xdigit:]]`}, {`[a-c]`, `[^a-c]`}, {`[\d]`, `[^\d]`},
-		{`a.b`, `a\.b`}, {`x{2,3}`, `x{3,2}`}, {`(ab)+`, `(ab)*`},
-	}
+var polarityPairs = [][2]string{
+	{`\d+x`, `\D+x`}, {`\s`, `\S`}, {`\w+`, `\W+`},
+	{`\p{Lu}+`, `\P{Lu}+`}, {`\p{Greek}`, `\P{Greek}`}, {`\p{L}`, `\P{L}`}, {`\p{Lu}`, `\p{Ll}`},
+	{`\p{Latin}+`, `\P{Latin}+`}, {`\p{Cyrillic}`, `\P{Cyrillic}`}, {`\p{Nd}`, `\P{Nd}`},
+	{`[[:alpha:]]+`, `[^[:alpha:]]+`}, {`[[:digit:]]`, `[[:xdigit:]]`}, {`[a-c]`, `[^a-c]`}, {`[\d]`, `[^\d]`},
+	{`a.b`, `a\.b`}, {`x{2,3}`, `x{3,2}`}, {`(ab)+`, `(ab)*`},
+}
+
+// polarityPair returns the operations of one pair: both members as bare patterns (both back ends)
+// and inside token definitions.
+func polarityPair(i int) []Op {
 	var out []Op
-	for i, pr := range pairs {
-		for j, p := range pr {
-			out = append(out, Op{Kind: "nfa", Text: p}, Op{Kind: "regex_dfa", Text: p})
-			if i%2 == 0 || j == 1 {
-				out = append(out, Op{Kind: "spec_dfa", Text: "grammar pol;\nWORD = /" + p + "/;\nstart = WORD \"!\" WORD;\n"})
-			}
+	for j, p := range polarityPairs[i%len(polarityPairs)] {
+		out = append(out, Op{Kind: "nfa", Text: p}, Op{Kind: "regex_dfa", Text: p})
+		if i%2 == 0 || j == 1 {
+			out = append(out, Op{Kind: "spec_dfa", Text: "grammar pol;\nWORD = /" + p + "/;\nstart = WORD \"!\" WORD;\n"})
 		}
+	}
+	return out
+}
+
+func polarityOps() []Op {
+	var out []Op
+	for i := range polarityPairs {
+		out = append(out, polarityPair(i)...)
 	}
 	return out
 }
@@ -584,6 +594,10 @@ func (e Engine) Plan(tier string, seed uint64) []simrt.Case {
 	for i := 0; i < nS; i++ {
 		cs = append(cs, simrt.Case{Index: len(cs), Seed: simrt.Mix(seed, 17, 2, uint64(i)), Args: []int{kPairs}})
 	}
+	// one history per polarity pair (every pair in every run, both members in a drawn order)
+	for i := range polarityPairs {
+		cs = append(cs, simrt.Case{Index: len(cs), Seed: simrt.Mix(seed, 17, 3, uint64(i)), Args: []int{kHistory, i + 1}, Label: "polarity-pair"})
+	}
 	return cs
 }
 
@@ -774,7 +788,9 @@ func (e Engine) Run(t *simrt.Tape, c simrt.Case, x *simrt.Ctx) *simrt.Result {
 	// half of the cases concentrate on one family of operations (shared state is per package)
 	switch t.Draw(7) {
 	case 6:
-		pool = polarityOps()
+		// one pair per case: a short history or schedule then almost surely holds both members, in
+		// both orders over the cases
+		pool = polarityPair(t.Draw(len(polarityPairs)))
 	case 5:
 		pool = nameOps()
 	case 0:
@@ -814,11 +830,19 @@ func (e Engine) Run(t *simrt.Tape, c simrt.Case, x *simrt.Ctx) *simrt.Result {
 	}
 
 	if c.Args[0] == kPairs {
-		pool = e.hotOps(t.Draw(6))
+		if fam := t.Draw(6); fam == 5 {
+			pool = polarityPair(t.Draw(len(polarityPairs)))
+		} else {
+			pool = e.hotOps(fam)
+		}
 	}
 	switch c.Args[0] {
 	case kHistory:
 		n := 2 + t.Draw(7)
+		if len(c.Args) > 1 && c.Args[1] > 0 {
+			pool = polarityPair(c.Args[1] - 1)
+			n = 5 + t.Draw(4)
+		}
 		var names []string
 		var ops []Op
 		var raws []*Raw
